@@ -34,11 +34,15 @@ Definition dom_object (o : object) : bool :=
   | OInvalid => false
   end.
 
-(* in a triple the subject type must not contain a form feed (NewType rejects space, tab, newline and CR only; the
-   subject split looks for '>' blanks double-quote and form feed is a blank of Go's regexp class s).
+(* in a triple the subject type must not itself contain a match of the subject-split expression  > blanks double-quote
+   (NewType rejects space, tab, newline and CR but not form feed, which is a blank of Go's regexp class s; so a type
+   such as /a>[FF][dq]b is cut).  Every type without form feed, or without a greater-than sign, or without double quote satisfies this.
    After F4b the predicate id is unrestricted. *)
+Definition type_split_free (ty : str) : bool :=
+  match find_split x3e [x22] (ty ++ [x3c]) 0 with None => true | Some _ => false end.
+
 Definition dom_triple (t : triple) : bool :=
-  dom_node (subj t) && negb (memb x0c (ntype (subj t))) && dom_pred (tpred t) && dom_object (tobj t).
+  dom_node (subj t) && type_split_free (ntype (subj t)) && dom_pred (tpred t) && dom_object (tobj t).
 
 (* in the line-oriented graph format no component may contain a newline: node ids and text literals are the only
    components printed raw (types cannot contain one, predicate ids are quoted, numbers and blobs are digits) *)
